@@ -201,7 +201,9 @@ def subsets_nested_text_to_flat_json(lines, idxline):
     """
     data_all_subsets = []
     while True:
-        line = lines[idxline].strip()
+        # A replication factor, and the attributes shown under it, are rendered with
+        # leading dots in place of the indentation
+        line = lines[idxline].strip().lstrip('.').strip()
         if line.startswith(TEXT_SECTION_HEADER):
             break
         if line.startswith(TEXT_SUBSET_HEADER):
